@@ -402,6 +402,23 @@ def check_invert(rep, A):
                         dex = irrules.data_exits(F.mod, f, lambda dep: dep[0] == 'mem')
                         ok = bool(dex)
                         why = 'the pivot search has no exit on a non-zero matrix entry'
+                        # the search must look at every row below i: its counting exit compares the same index with n
+                        if ok:
+                            sloops = {F.loop_of(b) for b, tgt, tt_ in dex}
+                            sloops.discard(None)
+                            rng_ok = False
+                            for h in sloops:
+                                th = f.blocks[h].insns[-1]
+                                ch = f.defs.get(th.extra.get('cond', '')) if th.op == 'br' else None
+                                if ch is not None and ch.op == 'icmp' and ch.extra['pred'] in ('slt', 'ult') and canon(F.poly(ch.ops[1])) == canon(n):
+                                    start = F.poly(ch.ops[0])
+                                    # index = i + 1 + n_search
+                                    outs = [o for o, L in loops.items() if h in L and o != h]
+                                    if outs and canon(start) == canon(padd(padd(pvar('n%' + max(outs, key=lambda o: len(loops[o]))), pconst(1)), pvar('n%' + h))):
+                                        rng_ok = True
+                            if not rng_ok:
+                                ok = False
+                                why = 'the pivot search does not run over every row i+1 .. n-1 (its counting exit is not "row index < n"): a usable pivot in the last rows is never looked at, and the row it stops at is swapped in unchecked'
     R4.check(ok, mod_where(F, ret), why, key='R-INVERT-SINGULAR', sample='-1 iff search index == n')
 
 
